@@ -51,6 +51,7 @@ class World:
         self.seam_log = []  # (kind, detail) of every seam event of the current / latest invocation
         self.last_run_seams = 12  # seam events of the latest complete `gwf run` (to place faults in the next one)
         self.last_gwf_faulted = False
+        self.on_job_start_extra = None  # scenario hook(job) at every job start
         self.cancel_requested_ids = set()  # cluster job ids some gwf invocation asked the scheduler to cancel
         self.history_accepted = []  # every (name, id, deps) accepted so far, in order
         self.kill_at = None  # (k, 'before'|'after') for the current invocation
@@ -342,6 +343,10 @@ class World:
             self.latest_gen[j.name] = self.local.generation
             self.accepted_gen[(j.name, j.id)] = self.local.generation
         self.accepted_now.append((j.name, j.id, list(j.deps)))
+        if self.knobs.get("instant_start") and self.cluster is not None and self.cluster.dep_state(j) == "ok":
+            # an idle cluster: the job starts before the submission command has even returned
+            self.probe("instant_starts")
+            self.cluster.start(j)
 
     def jref(self, name):
         """Reference to the latest job of a target: the id, or (pool generation, id) for the local pool
@@ -377,6 +382,8 @@ class World:
         """C07 invariant at every job start: every job that was producing the target's inputs when it
         was submitted has finished - successfully on Slurm, LSF and the local pool."""
         info = self.job_model.get(j.id)
+        if self.on_job_start_extra is not None:
+            self.on_job_start_extra(j)
         if info is None:
             return
         self.probe("job_starts_checked")
